@@ -38,7 +38,15 @@ RULE = ('T2: generated API-level messages (method tokens, Unicode path segments 
 	'field names in other letter cases, field lines in another order, other optional white space, folded values - same delivery (fields compared as a set). '
 	'Also generated systematically: a message object reused after a use with a content coding (finding D59, repaired; the model follows the tree through the T1 probe D59_VARIANT), '
 	'reason phrases with SP / HTAB at an edge or of blanks only (known finding D48b), query pairs with an empty name (known finding D60). '
-	'Left out of the new classes, each named in notes/reports/C04.md: see excluded() (coding names not in lower case, control characters in the target, CONNECT). '
+	'Fifth-wave classes (composer_rec._build5, case key w5; same oracle, plus: the argument objects of the application are what they were): (10) one Headers / dict / URI / Body / Protocol / list '
+	'object given to two messages, the other one changed, prepared and composed before or after; (11) every argument of the public entry points in every Python type it accepts; (12) operations the API '
+	'refuses with an exception, attempted on the complete message, and a first composition that raises; (13) the charset of a text body through every knob x 22 charsets, URI.encoding assigned on the class; '
+	'(14) unsorted / reverse-sorted / duplicate query pairs, segments and list members, members added with headers.append, and repeated field lines of one name separated by other fields as one more '
+	're-encoding; (15) all orders of {start line, fields, content, coding} and all subsets of constructor arguments; (16) contents SEARCHED so that each octet of the Adler-32 / CRC-32 / ISIZE of a '
+	'stream is HT LF VT FF CR SP or NUL, contents with such octets at their edges, 160 cheap multi-piece coded contents; (17) 2^k - 1, 2^k, 2^k + 1 for k = 9 .. 16 in every position that has a length. '
+	'Cases marked light (mass inputs of (16) / (17)): fed whole, octet by octet / around every line end and on a used machine, without two-call cuts and re-encodings, one in four through Coq. '
+	'Left out of the new classes, each named in notes/reports/C04.md: see excluded() (coding names not in lower case, control characters in the target, CONNECT); one-shot iterators that are neither '
+	'generators nor list iterators, memoryview / StringIO as content; refusals that leave the object changed (headers = <invalid>, uri = <invalid port>). '
 	'non-trivial = distinct (kind, outcome, source type, framing, coding, size class, version) classes')
 EXHAUSTIVE = {'quick': False, 'thorough': False}
 TRUSTED = [
@@ -590,6 +598,367 @@ def class_empty_query_name(rng, tier):
 	return out
 
 
+# ---------------------------------------------------------------- fifth wave: (10) aliasing  (11) argument types  (12) refused operations  (13) configuration knobs
+# (14) order  (15) order of the API calls  (16) value-dependent rare branches  (17) lengths at multiples of 2^k.  The messages are built by composer_rec._build5
+# (case key 'w5'); the expectation is, as everywhere, the data of the case (what a fresh message built the plain way gives), plus: the argument objects of the
+# application are what they were (observation 'args').
+W5_HDRS = [['X-Api-Key', b'secret'.hex()], ['Accept-Language', b'de, en;q=0.5'.hex()], ['X-Zeta', b'caf\xe9 z'.hex()]]
+W5_TYPES = ('bytes', 'text', 'list', 'tuple', 'gen', 'bytesio', 'file', 'bytearray')
+
+
+def _w5(kind, i=0, **kw):
+	"""a message with something in every part; i varies the parts"""
+	w5 = kw.pop('w5', {})
+	d = dict(hdrs=[list(h) for h in W5_HDRS], body=_small(W5_TYPES[i % 8], i % 3), chunked=bool(i % 2))
+	if kind == 'req':
+		d.update(method=['POST', 'PUT', 'PATCH', 'DELETE'][i % 4], segs=['', 'upload', 'f %d' % i], query=[['k', 'v w'], ['n', str(i)]], port=[None, 8080][i % 2])
+	else:
+		d.update(status=[200, 404, 203, 500][i % 4], reason=[None, 'Custom Reason'][(i // 2) % 2], rmethod=['GET', 'POST'][(i // 4) % 2])
+	d.update(kw)
+	if d.get('coding') and kind == 'req':
+		d['chunked'] = True   # (a coded request body with Content-Length framing is known finding D43)
+	return _msg(kind, w5=w5, **d)
+
+
+def class_alias(rng, tier):
+	"""(10) two messages built from the same argument object: the other message is changed, prepared and composed; this one must be what a fresh message gives, and the
+	argument object must be what it was"""
+	out = []
+	firsts = [{'chunked': False}, {'chunked': True}, {'chunked': True, 'coding': 'gzip'}]
+	n = 0
+	for kind in ('req', 'resp'):
+		for how in ('hdrs', 'hdrs-later'):
+			for fi, form in enumerate(('Headers', 'Headers', 'Headers', 'dict', 'odict', 'chainmap')):
+				for vi in range(3):
+					# this message: with content under Content-Length / chunked framing, and without content (nothing may be left of the other message's framing)
+					first = firsts[(fi + vi) % 3] if form != 'Headers' else firsts[fi % 3]
+					kw = [dict(chunked=False), dict(chunked=True), dict(body=_bytes(b''), chunked=False)][vi]
+					if vi == 2 and kind == 'req':
+						kw.update(method='GET')
+					n += 1
+					out.append(_w5(kind, n, w5={'alias': {'how': how, 'first': first}, 'types': {'hdrs': form}, 'ctor': ['P', 'S', 'H', 'B'] if n % 2 else ['H']}, **kw))
+		for fi, first in enumerate(firsts):
+			for vi in range(2):
+				n += 1
+				out.append(_w5(kind, n, w5={'alias': {'how': 'parts', 'first': first}, 'ctor': ['H', 'B'] if vi else []}, chunked=bool(vi)))
+		for ti, t in enumerate(('bytes', 'text', 'list', 'tuple', 'bytesio', 'file')):
+			for fi in range(2):
+				n += 1
+				out.append(_w5(kind, n, w5={'alias': {'how': 'body', 'first': dict(firsts[1], coding=[None, 'gzip', 'deflate'][(ti + fi) % 3])}, 'ctor': ['B'] if fi else ['P', 'S', 'H', 'B']},
+					body=_small(t, 0), chunked=bool((ti + fi) % 2)))
+		for fi, form in enumerate(('Protocol', 'list', 'Protocol', 'list')):
+			n += 1
+			out.append(_w5(kind, n, w5={'alias': {'how': 'proto', 'first': firsts[fi % 2]}, 'types': {'proto': form}}, version=[1, fi // 2], chunked=bool(fi % 2) and fi >= 2))
+		for fi in range(4):
+			n += 1
+			out.append(_w5(kind, n, w5={'alias': {'how': 'lists', 'first': firsts[fi % 2]}}, body=_small('list', 0), chunked=bool(fi // 2)))
+	for fi, form in enumerate(('URI', 'dict', 'URI', 'dict')):
+		for vi in range(2):
+			n += 1
+			out.append(_w5('req', n, w5={'alias': {'how': 'uri', 'first': firsts[(fi + vi) % 3]}, 'types': {'uri': form}, 'ctor': ['S'] if vi else ['P', 'S', 'H', 'B']},
+				segs=['', 'shared target', 'x'], query=[['a', '1'], ['b', 'two 2']] if fi < 2 else None))
+	return out
+
+
+# Kept OUT of (11), reported in notes/reports/C04.md (observations on the tree as found, 2026-10-01): one-shot iterators that are neither a generator nor a list
+# iterator - iter(tuple), map(), filter(), itertools.chain(), reversed(), an object with __next__ - are accepted by Body.set ('any iterable returning bytes/unicode')
+# but Body.generator does not recognise them: len(body) in prepare() consumes them, the message goes out with the Content-Length of the content and NO body (the
+# peer waits for ever) or, chunked, with an empty body.  memoryview content (iterates as integers) and io.StringIO / io.BufferedReader content (fileno() raises) are
+# refused at prepare() with TypeError / UnsupportedOperation: nothing wrong is sent.  Field values given as int / bool become that many NUL octets (bytes(7)).
+BODY_VIAS = [('gen', 'iterlist'), ('gen', 'genfunc'), ('gen', 'zipgen'), ('gen', 'nested'), ('list', 'deque'), ('list', 'reiter'), ('list', 'dictkeys'), ('list', 'dict'), ('list', 'listsub')]
+
+
+def class_types(rng, tier):
+	"""(11) every argument of the public entry points in every Python type it accepts; expected: what the plain form (bytes, list of pairs) gives, in the order given"""
+	out = []
+	n = 0
+	full = tier == 'thorough'
+	hd = [['X-B', b'1'.hex()], ['X-A', b'two'.hex()], ['Accept-Language', b'de, en;q=0.5'.hex()], ['X-C', b'caf\xe9'.hex()]]
+	for form in ('dict', 'odict', 'list', 'tuple', 'iter', 'gen', 'Headers', 'map', 'chainmap', 'items', 'mappingproxy', 'lol', 'chain', 'deque'):
+		for kind in ('req', 'resp'):
+			n += 1
+			out.append(_w5(kind, n, w5={'ctor': ['H', 'B'] if n % 2 else ['P', 'S', 'H', 'B'], 'types': {'hdrs': form}}, hdrs=hd))
+	for form in ('dict', 'odict', 'Headers', 'chainmap', 'mappingproxy'):
+		for hset in ('set', 'update'):
+			n += 1
+			out.append(_w5('req' if n % 2 else 'resp', n, w5={'types': {'hdrs': form, 'hset': hset}, 'order': ['H', 'P', 'S', 'B', 'C']}, hdrs=hd))
+	for form in ('str', 'bytes', 'bytearray', 'memoryview', 'obj'):
+		for kind in ('req', 'resp'):
+			n += 1
+			out.append(_w5(kind, n, w5={'types': {'hval': form, 'hdrs': ['dict', None][n % 2]}, 'ctor': ['H'] if n % 2 else []}, hdrs=hd, happend=[['X-B', b'2'.hex()], ['Vary' if kind == 'resp' else 'Accept', b'x-a'.hex()]]))
+	for mi, meth in enumerate(('str', 'bytes')):
+		for ci in range(2):
+			n += 1
+			out.append(_w5('req', n, w5={'types': {'method': meth, 'uri': 'str'}, 'ctor': ['S'] if ci else []}, method=['PUT', 'M-SEARCH'][ci]))
+	for form in ('str', 'bytes', 'URI', 'tuple', 'dict'):
+		for ci in range(2):
+			for qi, q in enumerate(([['a', '1'], ['b', 'two 2'], ['a', '\xe4']], None)):
+				n += 1
+				out.append(_w5('req', n, w5={'types': {'uri': form}, 'ctor': ['S'] if ci else []}, segs=['', 'p q', '\xe4€', 'x.y'], query=q, port=[None, 8080][qi]))
+	for fi, form in enumerate(('tuple', 'list', 'str', 'bytes', 'Protocol')):
+		for ci in range(2):
+			for kind in ('req', 'resp'):
+				if full or (fi + ci + (kind == 'req')) % 2:
+					n += 1
+					out.append(_w5(kind, n, w5={'types': {'proto': form}, 'ctor': ['P'] if ci else []}, version=[1, (fi + ci) % 2], chunked=False))
+	dup = [['b', '2'], ['a', '1'], ['b', '1'], ['c', '\xe4 €'], ['a', '1']]
+	uniq = [['z', '26'], ['y', ''], ['a', '\xe4 €'], ['m', 'a=b&c']]
+	for form in ('list', 'tuple', 'iter', 'gen', 'map', 'lol', 'chain', 'deque'):
+		n += 1
+		out.append(_w5('req', n, w5={'types': {'query': form}}, query=dup))
+	for form in ('dict', 'odict', 'items', 'list', 'gen'):
+		n += 1
+		out.append(_w5('req', n, w5={'types': {'query': form}}, query=uniq))
+	for form in ('list', 'tuple', 'iter', 'gen', 'map', 'deque'):
+		for si, segs in enumerate((['', 'b c', '\xe4', 'a/b', 'b c'], ['', 'z', 'y', 'a', ''])):
+			n += 1
+			out.append(_w5('req', n, w5={'types': {'segs': form}}, segs=segs))
+	for form in ('int', 'Status', 'float'):
+		for ci in range(2):
+			if form == 'float' and not ci:
+				continue   # (only the constructor takes a float)
+			n += 1
+			out.append(_w5('resp', n, w5={'types': {'status': form}, 'ctor': ['S'] if ci and form != 'Status' else []}, status=[404, 200, 503][n % 3], reason=None))
+	for form in ('tuple', 'tuplebytes', 'strline', 'bytesline', 'Status'):
+		n += 1
+		out.append(_w5('resp', n, w5={'types': {'status': form}}, status=[404, 299, 200][n % 3], reason='Nope, not here'))
+	# the content as every kind of iterable the Body accepts
+	for vi, (t, via) in enumerate(BODY_VIAS):
+		for kind in ('req', 'resp'):
+			for ch in (False, True):
+				n += 1
+				coding = [None, 'gzip', None, 'deflate'][(vi + ch + (kind == 'req')) % 4] if ch else None
+				items = [b'first '.hex(), b'second\r\n'.hex(), b'third'.hex()]
+				out.append(_w5(kind, n, w5={'ctor': ['B'] if n % 3 == 0 else []}, body={'t': t, 'via': via, 'items': items, 'strs': [False, False, False]}, chunked=ch, coding=coding))
+			n += 1
+			out.append(_w5(kind, n, body={'t': t, 'via': via, 'items': ['Gr\xfc\xdfe '.encode('utf-8').hex(), b'\xe2\x82\xac'.hex(), '€!'.encode('utf-8').hex()], 'strs': [True, False, True]}, chunked=bool(vi % 2)))
+	return out
+
+
+def class_refused(rng, tier):
+	"""(12) an operation that the API refuses with an exception leaves the message as it was: the application goes on with the message and sends it"""
+	out = []
+	n = 0
+	for kind in ('req', 'resp'):
+		names = sorted(cr.refusals(kind == 'req'))
+		for name in names:
+			n += 1
+			out.append(_w5(kind, n, w5={'refuse': [name], 'ctor': ['P', 'S', 'H', 'B'] if n % 3 == 0 else []}, coding=[None, None, 'gzip', None, 'deflate'][n % 5]))
+		for ch in (False, True):
+			n += 1
+			out.append(_w5(kind, n, w5={'refuse': names}, chunked=ch))
+			out.append(_w5(kind, n + 1, w5={'refuse': names[::-1]}, chunked=ch, coding='gzip' if ch else None))
+			for ff in ('piece', 'source'):
+				n += 1
+				out.append(_w5(kind, n, w5={'failfirst': ff}, chunked=ch))
+				out.append(_w5(kind, n + 3, w5={'failfirst': ff, 'refuse': names[n % len(names):][:3]}, chunked=ch, coding='deflate' if ch else None))
+	return out
+
+
+# (13) charsets of a text body: (label of the charset, text that it can encode)
+KNOB_MAIN = [('UTF-16', 'Gr\xfc\xdfe € \U0001f600'), ('ISO8859-1', 'caf\xe9 \xff \xa0x'), ('cp1252', '€ œ caf\xe9 “q”'), ('koi8-r', 'Привет, мир')]
+KNOB_MORE = [('utf-16-le', 'h\xe9 €'), ('utf-16-be', 'h\xe9 €'), ('utf-32', '\U0001f600 x'), ('iso8859-15', '€ caf\xe9'), ('cp1251', 'Привет'), ('shift_jis', '日本語 テキスト'),
+	('gb2312', '中文'), ('euc-kr', '한국어'), ('big5', '中文'), ('utf-8-sig', 'bom \xe9'), ('cp437', '\xe9 \xf1 ░'), ('mac-roman', '\xe9 \xfc †'), ('iso8859-2', 'ł\xf3dź'),
+	('iso8859-5', 'Привет'), ('iso8859-7', 'αβγ'), ('koi8-u', 'їє привіт'), ('utf-7', 'a+b €'), ('cp866', 'Привет ░')]
+KNOBS = ('encoding', 'mimetype', 'mimetype-bytes', 'bodyctor')
+URI_CHARSETS = [('ISO8859-1', 'caf\xe9'), ('cp1252', '€ x'), ('koi8-r', 'привет'), ('iso8859-15', '€\xe9'), ('cp1251', 'мир')]
+
+
+def class_knobs(rng, tier):
+	"""(13) the charset of a text body selected through every knob there is (Body.encoding, Body.mimetype as text / octets, Body(content, mimetype=...) as content or as
+	constructor argument) with text outside ASCII: the text goes out in that charset, Content-Length counts its octets; and URI.encoding assigned on the class"""
+	out = []
+	n = 0
+
+	def body(t, cs, text):
+		if t == 'text':
+			return {'t': 'text', 'items': [text.encode('utf-8').hex()], 'charset': cs}
+		return {'t': t, 'items': [x.encode('utf-8').hex() for x in ('<', text, '|', text[:3])], 'strs': [False, True, False, True], 'charset': cs}
+	for ci, (cs, text) in enumerate(KNOB_MAIN):
+		for ki, knob in enumerate(KNOBS):
+			for ti, t in enumerate(('text', 'list', 'tuple', 'gen')):
+				if tier != 'thorough' and (ci + ki + ti) % 2:
+					continue
+				n += 1
+				out.append(_w5('req' if n % 2 else 'resp', n, w5={'knob': knob, 'ctor': ['B'] if knob == 'bodyctor' and n % 3 == 0 else []}, body=body(t, cs, text), chunked=bool((n // 2) % 2)))
+	for ci, (cs, text) in enumerate(KNOB_MORE):
+		for j in range(2):
+			n += 1
+			out.append(_w5('req' if (ci + j) % 2 else 'resp', n, w5={'knob': KNOBS[(ci + 2 * j) % 4]}, body=body(('text', 'list', 'gen', 'tuple')[(ci + j) % 4], cs, text), chunked=bool(ci % 2)))
+	for ci, (cs, text) in enumerate(URI_CHARSETS):
+		for j in range(2):
+			out.append(_req(uri_encoding=cs, light=True, segs=['', text, 'z ' + text] if j else ['', 'p', text], query=[[text, 'v'], ['k', text + ' ' + text]], method=['PUT', 'POST'][j], chunked=bool(j)))
+	return out
+
+
+LIST_FIELDS = {'req': ['Accept-Language', 'Accept', 'Accept-Charset', 'Cache-Control', 'Via', 'X-List', 'TE-X', 'If-None-Match-X'], 'resp': ['Vary', 'Content-Language', 'Cache-Control', 'Via', 'X-List', 'Allow-X', 'Warning-X']}
+MEMBER_ORDERS = [['b', 'a', 'c'], ['z', 'y', 'x', 'a'], ['a', 'b', 'a'], ['de', 'en', 'de', 'fr'], ['m2', 'm10', 'm1'], ['B', 'a', 'C', 'b']]
+
+
+def class_order(rng, tier):
+	"""(14) the order of query pairs, path segments and list members (unsorted, reverse-sorted, duplicates) is the order the caller gave, through every input type;
+	members added with headers.append come after the ones that are there"""
+	out = []
+	n = 0
+	queries = [[['b', '2'], ['a', '1'], ['b', '1']], [['z', '1'], ['y', '2'], ['x', '3'], ['a', '4']], [['a', '1'], ['a', '1'], ['a', '1']], [['k', 'z'], ['k', 'a'], ['k', 'm'], ['k', 'a']],
+		[['10', 'x'], ['9', 'x'], ['1', 'x'], ['2', 'x']], [['B', '1'], ['a', '2'], ['C', '3'], ['b', '4']], [['\xe4', '1'], ['z', '2'], ['a', '3'], ['\xe4', '0']], [['a', ''], ['b', ''], ['a', '']]]
+	for qi, q in enumerate(queries):
+		for form in (('list', 'gen'), ('tuple', 'map'), ('iter', 'lol'), ('chain', 'deque'))[qi % 4]:
+			n += 1
+			out.append(_w5('req', n, w5={'types': {'query': form}}, query=q, segs=[['', 'b', 'a', 'b'], ['', 'z', 'y', 'x', 'a'], ['', 'a', 'a', 'a'], ['', '10', '9', '1']][qi % 4]))
+	for qi, q in enumerate(([['z', '1'], ['y', '2'], ['a', '3']], [['b', 'x'], ['C', 'y'], ['a', 'z'], ['B', 'w']])):
+		for form in ('dict', 'odict', 'items'):
+			n += 1
+			out.append(_w5('req', n, w5={'types': {'query': form, 'hdrs': form if form != 'items' else 'dict'}, 'ctor': ['H']}, query=q, hdrs=[['X-' + k.upper() + str(i), v.encode().hex()] for i, (k, v) in enumerate(q)]))
+	for kind in ('req', 'resp'):
+		for fi, name in enumerate(LIST_FIELDS[kind]):
+			members = MEMBER_ORDERS[(fi + (kind == 'req')) % len(MEMBER_ORDERS)]
+			n += 1
+			# all members in one value; and the first in the value, the others appended one by one (with other fields set in between)
+			out.append(_w5(kind, n, hdrs=[['X-First', b'1'.hex()], [name, ', '.join(members).encode().hex()], ['X-Last', b'2'.hex()]], chunked=bool(fi % 2)))
+			out.append(_w5(kind, n + 1, w5={'types': {'hval': ['bytes', 'str'][fi % 2]}}, hdrs=[[name, members[0].encode().hex()], ['X-Between', b'1'.hex()]], happend=[[name, x.encode().hex()] for x in members[1:]], chunked=bool(fi % 2)))
+	return out
+
+
+def class_calls(rng, tier):
+	"""(15) the same operations in every order the API allows: protocol, start line, header fields, content, content coding - through constructor arguments or attribute
+	assignment - with and without a content coding (coding selected before / after the content is assigned; fields before / after the content)"""
+	import itertools
+	out = []
+	n = 0
+	for perm in itertools.permutations(['S', 'H', 'B', 'C']):
+		for kind in ('req', 'resp'):
+			for coding in ('gzip', 'deflate'):
+				n += 1
+				order = (['P'] + list(perm)) if n % 3 else (list(perm) + ['P'])
+				out.append(_w5(kind, n, w5={'order': order}, coding=coding, chunked=True, body_coding=bool(kind == 'resp' and n % 4 == 0), version=[1, 1]))
+		n += 1
+		out.append(_w5('req' if n % 2 else 'resp', n, w5={'order': list(perm[:2]) + ['P'] + list(perm[2:])}, version=[1, n % 2], chunked=bool(n % 4 == 1)))
+	steps = ['P', 'S', 'H', 'B']
+	for k in range(16):
+		ctor = [s for i, s in enumerate(steps) if k >> i & 1]
+		for kind in ('req', 'resp'):
+			n += 1
+			rest = [s for s in ['C'] + steps[::-1] if s not in ctor] if n % 2 else [s for s in steps + ['C'] if s not in ctor]
+			coding = [None, 'gzip', 'deflate'][n % 3]
+			out.append(_w5(kind, n, w5={'ctor': ctor, 'order': rest, 'types': {'uri': 'str'} if 'S' in ctor else {}}, coding=coding, chunked=bool(coding) or bool(k % 2), reason=None))
+	return out
+
+
+WS_OCTETS = [0x09, 0x0a, 0x0b, 0x0c, 0x0d, 0x20, 0x00]
+EDGE_OCTETS = [0x09, 0x0a, 0x0b, 0x0c, 0x0d, 0x1c, 0x1d, 0x1e, 0x1f, 0x20, 0x85, 0xa0, 0x00, 0x3d, 0xff]   # white space of bytes.strip / str.strip (Latin-1), NUL, '=', 0xff
+
+
+def _search(pred, stem, start=0):
+	"""the first octet string 'stem NNN ...' for which pred holds (cheap: a checksum per candidate)"""
+	for k in range(start, start + 400000):
+		piece = stem + b' %d: ' % k + bytes((k * 37 + j * 11) % 95 + 32 for j in range(20 + k % 17)) + b'\n'
+		if pred(piece):
+			return piece
+		piece = bytes((k * 31 + j * 7 + len(stem)) % 95 + 32 for j in range(1 + k % 131))   # (short pieces: the upper half of an Adler-32 is small)
+		if pred(piece):
+			return piece
+	raise ValueError('no such piece')
+
+
+def class_values(rng, tier):
+	"""(16) contents chosen by the VALUE of what the coder makes of them: the Adler-32 of a zlib stream / the CRC-32 and the length field of a gzip member has a white
+	space octet (HT LF VT FF CR SP) or NUL in each of its positions - in the first, a middle and the last piece of a body that goes out as several streams; contents
+	that begin / end with such octets; and some hundred cheap multi-piece contents (fed whole and octet by octet only)"""
+	import zlib
+	out = []
+	n = 0
+	forms = ('list2', 'list3-last', 'list3-mid', 'gen', 'tuple-first', 'bytesio', 'file')
+
+	def shaped(form, piece, i):
+		a, b = b'header line\n', b'--\n' + bytes((i * 7 + j) % 251 for j in range(30))
+		if form == 'list2':
+			return {'t': 'list', 'items': [a.hex(), piece.hex()], 'strs': [False, False]}
+		if form == 'list3-last':
+			return {'t': 'list', 'items': [a.hex(), b.hex(), piece.hex()], 'strs': [False] * 3}
+		if form == 'list3-mid':
+			return {'t': 'list', 'items': [a.hex(), piece.hex(), b.hex()], 'strs': [False] * 3}
+		if form == 'gen':
+			return {'t': 'gen', 'items': [b.hex(), piece.hex()], 'strs': [False, False]}
+		if form == 'tuple-first':
+			return {'t': 'tuple', 'items': [piece.hex(), a.hex()], 'strs': [False, False]}
+		return None
+	for coding, check in (('deflate', zlib.adler32), ('gzip', zlib.crc32)):
+		for wi, w in enumerate(WS_OCTETS):
+			for pos in range(4):
+				n += 1
+				form = forms[n % len(forms)]
+				pred = lambda piece, w=w, pos=pos: (check(piece) >> (8 * pos)) & 0xff == w
+				if form in ('bytesio', 'file'):
+					# a file is read in blocks of 4096 octets, each one coded by itself: the LAST block is the piece
+					fill = bytes((n * 13 + j * 7) % 256 for j in range(4096 * (1 + n % 2)))
+					b = {'t': form, 'items': [(fill + _search(pred, b'tail %d' % n)).hex()], 'pos': 0}
+				else:
+					b = shaped(form, _search(pred, b'record %d' % n), n)
+				out.append(_w5('req' if n % 2 else 'resp', n, coding=coding, chunked=True, body=b, body_coding=bool(n % 3 == 0)))
+	# the length field of a gzip member (ISIZE, little endian): pieces of 9 .. 13, 32 octets, and lengths whose second octet is white space
+	for n2 in (9, 10, 11, 12, 13, 32, 0x0900, 0x0a00 + 10, 0x0d00, 0x2000, 0x2020):
+		n += 1
+		piece = bytes((n2 + j * 5) % 256 for j in range(n2))
+		out.append(_w5('req' if n % 2 else 'resp', n, coding='gzip', chunked=True, body={'t': 'list', 'items': [b'ab'.hex(), piece.hex()] if n % 3 else [piece.hex(), b'ab'.hex(), piece.hex()], 'strs': [False] * (2 if n % 3 else 3)}))
+	# contents whose first / last octet is white space for some reading (octets or Latin-1 text), NUL, '=' or 0xff
+	for oi, o in enumerate(EDGE_OCTETS):
+		for ci, coding in enumerate((None, 'gzip', 'deflate')):
+			n += 1
+			e = bytes([o])
+			items = [[e + b'content' + e], [e, b'content', e], [e + e, b'content' + e + e]][(oi + ci) % 3]
+			t = ('bytes', 'list', 'gen', 'tuple', 'bytesio', 'file')[(oi + ci) % 6] if len(items) > 1 or (oi + ci) % 2 else 'bytes'
+			if t in ('bytes', 'bytesio', 'file'):
+				items = [b''.join(items)]
+			b = {'t': t, 'items': [x.hex() for x in items]}
+			if t in ('list', 'gen', 'tuple'):
+				b['strs'] = [False] * len(items)
+			out.append(_w5('req' if (oi + ci) % 2 else 'resp', n, coding=coding, chunked=bool(coding) or bool(oi % 2), body=b, light=True))
+	# many cheap multi-piece contents with a coding
+	for i in range(400 if tier == 'thorough' else 80):
+		for coding in ('deflate', 'gzip'):
+			n += 1
+			text = b'record %03d: ' % i + bytes((i * 37 + j * 11) % 95 + 32 for j in range(40 + i)) + b'\n'
+			items = [[b'header line\n', text], [text, b'--\n', text[::-1]], [text, text], [text[:7], text[7:], b'\n', text]][i % 4]
+			out.append(_w5('req' if (i + (coding == 'gzip')) % 2 else 'resp', n, coding=coding, chunked=True, light=True,
+				body={'t': ('list', 'gen', 'tuple')[i % 3], 'items': [x.hex() for x in items], 'strs': [False] * len(items)}))
+	return out
+
+
+POW2 = [2 ** k + d for k in range(9, 17) for d in (-1, 0, 1)]
+
+
+def class_bounds(rng, tier):
+	"""(17) lengths that are an exact multiple of 2^k (k = 9 .. 16) and one more / one less, in every position that carries a length (the lengths of (3) are not repeated)"""
+	out = []
+	have = set(LENS + LENS_BIG)
+	n = 0
+	for i, ln in enumerate(POW2 + [3 * 4096 - 1, 3 * 4096, 3 * 4096 + 1, 5 * 4096]):
+		data = bytes((j * 11 + i) % 256 for j in range(ln))
+		big = ln > 20000
+		if ln not in have:
+			n += 1
+			out.append(_resp(body=_bytes(data), light=big and tier != 'thorough'))
+			if i % 2 == 0 or tier == 'thorough':
+				out.append(_req(body=_bytes(data), chunked=True, light=big and tier != 'thorough'))
+			out.append(_resp(body={'t': 'list', 'items': [b'ab'.hex(), data.hex(), b'c'.hex()], 'strs': [False] * 3}, chunked=True, light=big))
+		# a file / BytesIO is read in blocks of 4096: several chunks, and with a coding several streams
+		if ln >= 4095 and (not big or tier == 'thorough' or ln % 4096 == 0):
+			n += 1
+			t = ('bytesio', 'file')[n % 2]
+			out.append(_msg('req' if n % 2 else 'resp', body={'t': t, 'items': [data.hex()], 'pos': 0}, chunked=True, coding=[None, 'deflate', 'gzip'][n % 3], light=big))
+			out.append(_msg('resp' if n % 2 else 'req', body={'t': ('file', 'bytesio')[n % 2], 'items': [data.hex()], 'pos': 0}, chunked=True, coding=['deflate', 'gzip', None][n % 3], light=True))
+		if ln in have or ln > 17000:
+			continue
+		if i % 2 == 0 or tier == 'thorough':
+			out.append(_req(segs=['', _fill(ln, i), 'z'], light=ln > 5000))
+			out.append(_msg('resp' if i % 4 else 'req', hdrs=[['X-Long', _fill(ln, i).encode().hex()]], light=ln > 5000))
+		if i % 2 == 1 or tier == 'thorough':
+			out.append(_req(segs=['', 's'], query=[['k', _fill(ln, i)]], light=ln > 5000))
+			out.append(_msg('req' if i % 4 == 1 else 'resp', body={'t': 'text', 'items': [('\xe4' + _fill(ln - 2, i) + '€').encode('utf-8').hex()]}, chunked=bool(i % 4 == 1), light=ln > 5000))
+	return out
+
+
 def rmessage2(rng, tier):
 	"""random messages over the pools of the classes above"""
 	c = rmessage(rng, tier)
@@ -623,7 +992,7 @@ def rmessage2(rng, tier):
 def class_cases(rng, tier):
 	out = []
 	for f in (class_text_pieces, class_body_charset, class_stateful, class_reuse_coded, class_unicode, class_lengths, class_registries, class_degenerate,
-		class_reason_edges, class_empty_query_name):
+		class_reason_edges, class_empty_query_name, class_alias, class_types, class_refused, class_knobs, class_order, class_calls, class_values, class_bounds):
 		for c in f(rng, tier):
 			c['cls'] = f.__name__[6:]
 			out.append(c)
@@ -899,6 +1268,21 @@ def reencodings(c, data):
 	out.append(('field names in upper case', wire([(n.upper(), v) for n, v in fields], body)))
 	out.append(('field lines sorted backwards by name', wire(sorted(fields, key=lambda f: f[0].lower(), reverse=True), body)))
 	out.append(('framing fields first', wire(framing + others, body)))
+	# (14) field lines of one name that are NOT adjacent: the last line of every repeated name goes to the end of the section, and a list value of an
+	# unregistered (X-...) field is sent as one line per member, the first where the field was and the others at the end (RFC 7230 3.2.2: same combined value)
+	lines, tail = [], []
+	for i, (n, v) in enumerate(fields):
+		ln = n.lower()
+		members = v.split(b', ')
+		if ln.startswith(b'x-') and len(members) > 1 and b'"' not in v and all(x.strip(b' \t') == x and x for x in members) and not any(f[0].lower() == ln for f in fields[:i] + fields[i + 1:]):
+			lines.append((n, members[0]))
+			tail.extend((n, x) for x in members[1:])
+		elif any(f[0].lower() == ln for f in fields[:i]) and not any(f[0].lower() == ln for f in fields[i + 1:]) and ln not in (b'content-length', b'transfer-encoding', b'host'):
+			tail.append((n, v))
+		else:
+			lines.append((n, v))
+	if tail and any(t[0].lower() != lines[-1][0].lower() for t in tail):
+		out.append(('repeated field lines of one name separated by the other fields', wire(lines + tail, body)))
 	out.append(('no white space after the colon', wire(fields, body, sep=b':')))
 	out.append(('tabs and blanks around the field values', wire(fields, body, sep=b': \t ', tail=b' \t')))
 	# a long value folded at one of its blanks (obs-fold; the continuation keeps a blank of its own, so that 'replace the fold by SP' and
@@ -920,6 +1304,8 @@ def reencodings(c, data):
 
 
 COQ_WIRE_MAX = 20000   # longer wires: oracle only
+COQ_W5_WIRE_MAX, COQ_TERM_MAX = 13000, 150000   # cases of the fifth-wave classes: measured - one literal of 16 kB overflows the stack of coqc 8.16 (12.5 kB does not), terms of 141 000 characters pass
+W5_CLASSES = ('alias', 'types', 'refused', 'knobs', 'order', 'calls', 'values', 'bounds')
 COQ_CLASS_MAX, COQ_CLASS_SHARE = 5000, 4   # cases of the input classes (key 'cls'): wires above this length go through Coq one in so many (cost of the literals)
 COQ_PER_OCTET_MAX, COQ_PER_OCTET_SHARE = 200, 4   # wires up to this length, one in so many: the octet-by-octet run is also replayed by the parser model inside Coq
 COQ_SEQ_MAX, COQ_SEQ_SHARE = 1200, 3             # ... and the run of three messages (chunked, the case's, Content-Length) on one machine
@@ -934,7 +1320,8 @@ def observe_extra(c, kind, data, alone):
 	mc = multi_cuts(data)
 	if mc:
 		feeds.append(('fed in %d calls (%s)' % (len(mc) + 1, 'octet by octet' if len(mc) == len(data) - 1 else 'octet by octet around every CR / LF, blocks elsewhere'), data, mc, want))
-	tc = two_call_cuts(data)
+	light = bool(c.get('light'))   # cheap mass inputs (class (16)/(17)): whole, octet by octet / around line ends, and on a used machine; no two-call cuts, no re-encodings
+	tc = [] if light else two_call_cuts(data)
 	x['two_call_cuts'] = len(tc)
 	x['many_call_run'] = len(mc) + 1
 	# (b) several messages on one machine
@@ -960,7 +1347,9 @@ def observe_extra(c, kind, data, alone):
 	seq('after a chunked message on the same machine', [pch, data], [dch, want])
 	seq('after a Content-Length message on the same machine', [pcl, data], [dcl, want])
 	seq('after both kinds of message, all octets in one call', [pcl + pch + data], [dcl, dch, want])
-	if clean:
+	if clean and light:
+		seq('twice in a row on the same machine', [data, data], [want, want])
+	elif clean:
 		seq('twice in a row on the same machine', [data, data], [want, want])
 		seq('between messages of the other framing', [pch, data, pcl, data, pch], [dch, want, dcl, want, dch])
 		# octets that follow, in the same call, a request without Content-Length and without chunked framing are taken for a body without
@@ -974,7 +1363,7 @@ def observe_extra(c, kind, data, alone):
 		# (c) the same message as another sender could have written it (other chunk boundaries, chunk-size spellings and extensions, the
 		# other framing, field names in other letter cases, field lines in another order, optional white space, folded values)
 		uw = unordered(want)
-		variants = reencodings(c, data)
+		variants = [] if light else reencodings(c, data)
 		turn = int(hashlib.sha1(data).hexdigest()[:6], 16)
 		for vi, (label, octets) in enumerate(variants):
 			feeds.append(('re-encoded: ' + label, octets, [], uw, True))
@@ -996,18 +1385,43 @@ def observe_extra(c, kind, data, alone):
 	return x
 
 
+class UriEncoding(object):
+	"""(13) the configuration knob URI.encoding, assigned on the class (as an application with another URI charset does), for the duration of one observation"""
+
+	def __init__(self, charset):
+		self.charset = charset
+
+	def __enter__(self):
+		import httoop.uri.uri as mod
+		self.cls = mod.URI
+		self.old = mod.URI.__dict__.get('encoding')
+		if self.charset:
+			mod.URI.encoding = self.charset
+
+	def __exit__(self, *a):
+		if self.charset:
+			self.cls.encoding = self.old
+
+
 def observe(c):
 	case = dict(c)
 	case['ops'] = _ops(c)
 	case.setdefault('trailer', [])
-	o = cr.run_ops(case)
-	steps = o['ops']
-	if steps and 'out' in steps[-1]:
-		data = bytes.fromhex(steps[-1]['out'])
-		kind = 'server' if c['k'] == 'req' else 'client'
-		primer(c['k'], True), primer(c['k'], False)   # composed (and their composer tables recorded and dropped) before the case's own parse is recorded
-		o['parse'] = parser_rec.run(kind, [data])
-		o['extra'] = observe_extra(c, kind, data, o['parse'])
+	primer(c['k'], True), primer(c['k'], False)   # composed (and their composer tables recorded and dropped) before the case's own parse is recorded
+	with UriEncoding(c.get('uri_encoding')):
+		o = cr.run_ops(case)
+		steps = o['ops']
+		if steps and 'out' in steps[-1]:
+			data = bytes.fromhex(steps[-1]['out'])
+			kind = 'server' if c['k'] == 'req' else 'client'
+			o['parse'] = parser_rec.run(kind, [data])
+			if c.get('uri_encoding'):
+				# the feeds run in worker processes forked before the class attribute was assigned: this process only (whole and octet by octet)
+				per = delivery(parser_rec.run(kind, [data[i:i + 1] for i in range(len(data))], record=False))
+				dev = [] if per == delivery(o['parse']) else [{'how': 'fed octet by octet', 'idx': 0, 'calls': len(data), 'want': _short(delivery(o['parse'])), 'got': _short(per)}]
+				o['extra'] = {'deviations': dev, 'n_deviations': len(dev), 'feeds': 1}
+			else:
+				o['extra'] = observe_extra(c, kind, data, o['parse'])
 	return o
 
 
@@ -1016,7 +1430,11 @@ def coq_case(c, o):
 	if 'harness_exception' in o or 'parse' not in o:
 		return None
 	n = len(o['ops'][-1]['out']) // 2
-	if n > COQ_WIRE_MAX:
+	if c.get('uri_encoding') or (c['body'].get('via') and c['body']['t'] == 'list' and c['body']['via'] != 'listsub'):
+		return None   # oracle only: the models know URI.encoding = UTF-8 and the content sources bytes / list / tuple / generator / BytesIO / file
+	if c.get('light') and int(hashlib.sha1(o['ops'][-1]['out'].encode()).hexdigest()[:6], 16) % COQ_CLASS_SHARE:
+		return None   # the mass inputs of classes (16) / (17): one in four through Coq
+	if n > COQ_WIRE_MAX or (c.get('cls') in W5_CLASSES and max(n, len(cr.body_content(c['body']))) > COQ_W5_WIRE_MAX):
 		return None   # oracle only: a literal of this size overflows the stack of vm_compute (the 64 kB cases of the length class)
 	if c.get('cls') and n > COQ_CLASS_MAX and int(hashlib.sha1(o['ops'][-1]['out'].encode()).hexdigest()[:6], 16) % COQ_CLASS_SHARE:
 		return None
@@ -1037,6 +1455,8 @@ def coq_case(c, o):
 		final = '(Some (%s, %s))' % (X(bytes.fromhex(p['final']['buf'])), B(p['final']['started']))
 	out = ['XR (CRound %s (%s %s) %s %s %s %s %s)' % (cr.coq_tables(o), 'MReq' if c['k'] == 'req' else 'MResp', cr.coq_message(case, o), ops,
 		X(bytes.fromhex(o['ops'][-1]['out'])), parser_rec.coq_tables(p['tables']), L(calls, 'Corr.Parser.callobs'), final)]
+	if c.get('cls') in W5_CLASSES and len(out[0]) > COQ_TERM_MAX:
+		return None   # oracle only: incompressible file contents with a coding - the wire, the delivered body and the coder table (every block, plain and coded) in one term overflow the stack of coqc
 	# the parser model on the real octets: octet by octet, and several messages on one machine (short wires; the oracle does this for every wire)
 	for key in ('per_octet', 'seq'):
 		run = o.get('extra', {}).get(key)
@@ -1088,9 +1508,10 @@ def oracle(c, o):
 		if segs != c['segs']:
 			return 'path segments %r became %r' % (c['segs'], segs)
 		from httoop import URI
-		u = URI()
-		u.query_string = m['uri']['query_string']
-		q = [list(x) for x in u.query]
+		with UriEncoding(c.get('uri_encoding')):
+			u = URI()
+			u.query_string = m['uri']['query_string']
+			q = [list(x) for x in u.query]
 		if q != (c['query'] or []):
 			return 'query pairs %r became %r' % (c['query'], q)
 	else:
@@ -1107,9 +1528,10 @@ def oracle(c, o):
 			return 'host %r became %r' % (c['host'], got.get(b'host'))
 	# fields the library removes by design: the table of the status classes, read from the tree (304), and the constant of the first version of this check
 	removed = set(registries()['removed'].get(c.get('status'), ())) | (REMOVED_304 if c.get('status') == 304 else set())
+	appended = set(n_.lower() for n_, _ in c.get('happend', []))
 	for name, value in c.get('hdrs', []):
 		ln = name.lower()
-		if ln in MANAGED and ln not in DEFAULTED:
+		if (ln in MANAGED and ln not in DEFAULTED) or ln in appended:   # (fields that got more members through headers.append: see below)
 			continue
 		if c['k'] == 'resp' and ln in removed:
 			continue
@@ -1161,6 +1583,21 @@ def oracle(c, o):
 			expect = text   # sent as one encoded word: all of it
 		if back != expect:
 			return 'header field %s: the text %r set by the caller is read back as %r' % (name, text, back)
+	# (14) members added to a field with headers.append: RFC 7230 3.2.2 - the combined value is the list of all members, in the order they were added
+	added = {}
+	for name, value in c.get('happend', []):
+		added.setdefault(name.lower(), []).append(bytes.fromhex(value))
+	for ln, more in added.items():
+		if (ln in MANAGED and ln not in DEFAULTED) or (c['k'] == 'resp' and ln in removed):
+			continue
+		members = [x.strip(b' \t') for n_, v_ in c.get('hdrs', []) if n_.lower() == ln for x in bytes.fromhex(v_).split(b',')] + more
+		back = [x.strip(b' \t') for x in (got.get(ln.encode('ascii')) or b'').split(b',')]
+		if back != members:
+			return 'header field %s: the members %r (set, then appended one by one) are delivered as %r' % (ln, members, got.get(ln.encode('ascii')))
+	# (10) the argument objects of the application (a Headers object, a dict, a list, a URI, a Protocol) are what they were when they were handed over
+	for what, before, after in o.get('args', []):
+		if before != after:
+			return 'the argument object %s was changed by building / preparing / composing a message from it: %s became %s' % (what, before[:300], after[:300])
 	# the same single delivery however the octets are cut into calls, and whatever the machine has parsed before
 	x = extra(o)
 	if x is None or x['deviations'] is None:
